@@ -208,6 +208,27 @@ func (c *Ctx) Fail(f Failure) {
 	}
 }
 
+// Probe evaluates f in a scratch context that shares the driver and the known findings but records
+// nothing into this run; it returns the failures f produced (used by shrinkers).
+func (c *Ctx) Probe(f func(*Ctx)) []Failure {
+	p := &Ctx{Prop: c.Prop, Tier: c.Tier, Seed: c.Seed, Rng: rand.New(rand.NewSource(c.Seed)), Drv: c.Drv, DrvPath: c.DrvPath,
+		VerifDir: c.VerifDir, RepoDir: c.RepoDir, Thorough: c.Thorough, start: c.start,
+		distinct: map[[16]byte]bool{}, classes: map[string]int{}, knownHits: map[string]int{}, notes: map[string]interface{}{}, known: c.known}
+	f(p)
+	return p.failures
+}
+
+func (c *Ctx) NFailures() int { c.mu.Lock(); defer c.mu.Unlock(); return len(c.failures) }
+
+// ReplaceFailuresFrom drops the failures recorded since index n and records fs instead.
+func (c *Ctx) ReplaceFailuresFrom(n int, fs []Failure) {
+	c.mu.Lock()
+	defer c.mu.Unlock()
+	if n <= len(c.failures) {
+		c.failures = append(c.failures[:n], fs...)
+	}
+}
+
 func (c *Ctx) Failed() bool { c.mu.Lock(); defer c.mu.Unlock(); return len(c.failures) > 0 }
 
 func loadKnown(path string) []KnownFinding {
